@@ -67,6 +67,8 @@ def _impl_gridf(case):
     bb = [(float(lo), float(hi)) for lo, hi in case["bb"]]
     if case.get("via") == "sip":
         # the lattice on which the SIP fit samples the transform: the same helper, without centring, shifted by the reference pixel
+        if not hasattr(gw, "_make_sampling_grid"):
+            return {"skipped": "gwcs.wcs._make_sampling_grid is gone (renamed or inlined): the lattice is not observable this way"}
         x, y = gw._make_sampling_grid(case["n"][0], tuple(bb), case["crpix"])
         cols = [np.asarray(x) + case["crpix"][0], np.asarray(y) + case["crpix"][1]]
         return {"counts": [len(np.unique(c)) for c in cols], "last": [float(c.max()) for c in cols], "first": [float(c.min()) for c in cols]}
@@ -81,6 +83,8 @@ def _impl_gridf(case):
 
 def _oracle_gridf(case, res):
     out = []
+    if "skipped" in res:
+        return out
     for i, ((lo, hi), n) in enumerate(zip(case["bb"], case["n"])):
         step = (hi - lo) / (n - 1)
         if res["counts"][i] == n + 1 and abs(res["last"][i] - (hi + step)) <= 1e-6 * step:
@@ -283,6 +287,8 @@ def oracle(case, res):
 
 
 def request(case, res):
+    if case["kind"] == "gridf" and "skipped" in res:
+        return None
     if case["kind"] == "gridf" and case.get("via") == "sip":
         return {"op": "sampling", "bb": [[C.q2w(Fraction(a)), C.q2w(Fraction(b))] for a, b in case["bb"]], "n": case["n"][0],
                 "crpix": [C.q2w(Fraction(c)) for c in case["crpix"]]}
@@ -331,7 +337,7 @@ def compare(case, res, resp):
 
 def nontrivial(case, res):
     if case["kind"] == "gridf":
-        return True
+        return "skipped" not in res
     if case["kind"] == "grid":
         return any(G.fr(v).denominator != 1 for iv in case["bb"] for v in iv) or any(G.fr(s) != 1 for s in case["step"])
     return case["bb"] is not None and case["own"] is not None or case["center"]
